@@ -43,3 +43,24 @@ package contracts
 //@ trusted func Strings
 //@   modifies elems(x)
 //@   ensures forall(i, 0, len(x)-1, !(x[i+1] < x[i]))
+
+//@ package math
+// Pow(x, y) >= 1 for x >= 1 and y >= 0 (floating point treated as real arithmetic).
+//@ trusted func Pow
+//@   modifies nothing
+//@   ensures x >= 1 && y >= 0 ==> result >= 1
+
+//@ package math/rand/v2
+//@ trusted func Int64N
+//@   modifies nothing
+//@   ensures 0 <= result && result < n
+
+//@ package time
+//@ trusted func (Duration).Truncate
+//@   modifies nothing
+//@   ensures m > 0 && d >= 0 ==> result == d - d % m
+//@ trusted func (Duration).Nanoseconds
+//@   modifies nothing
+//@   ensures result == d
+//@ trusted func (Duration).Seconds
+//@   modifies nothing
